@@ -526,7 +526,7 @@ func init() {
 			return Outcome{Impl: "(replay prints the model and spec columns; re-run the check for the implementation column)", Model: resp["model"], Spec: resp["spec"], CorrOK: true, OracleOK: true}
 		}}}
 	}
-	register(&Property{ID: "C16", Gen: genC16, Extra: extraC16,
+	register(&Property{ID: "C16", Gen: genC16, Extra: func(c *Collector, r *RNG, tier string) { extraC16(c, r, tier); reusedStreamer(c, r, tier, "C16") },
 		Replay: func(line string) []Case {
 			if strings.HasPrefix(line, "hist ") {
 				return replayHist(line)
@@ -542,7 +542,7 @@ func init() {
 	},
 		Rule:  "table maps of 1..600 columns (incl. counts >= 251) over all supported types/metadata, names up to 255 bytes, every nullability bitmap, 4/6-byte ids, random optional metadata, with/without checksum; raw length-encoded integers and metadata reads; (parser level) attribution histories over integer-heavy tables of mixed signedness with partial images, re-announcements inside and across transactions, re-definitions of an id (same names, other types), ids used again for ANOTHER table (other name or schema, other columns: ids start over when the master restarts) and same-named tables in other schemas, re-definitions that change the column count (must be rejected); several attempts on one Streamer with the tables altered in between; the mapper's calls compared with the exact expected sequence (one per announcement of a table its id does not stand for yet). Non-trivial: more than one column",
 		Extra: func(c *Collector, r *RNG, tier string) { extraC15(c, r, tier) }})
-	register(&Property{ID: "C09", Gen: genC09, Extra: extraC09, Replay: func(line string) []Case {
+	register(&Property{ID: "C09", Gen: genC09, Extra: func(c *Collector, r *RNG, tier string) { extraC09(c, r, tier); hugeCases(c, "cell") }, Replay: func(line string) []Case {
 		if strings.HasPrefix(line, "hist ") {
 			return replayHist(line)
 		}
